@@ -16,7 +16,7 @@ sys.path.insert(0, ROOT)
 from tools import vrun
 from tools.vrun import Break
 
-UNITS = ['sim', 'lex', 'upd', 'ptab', 'qbk', 'arith', 'semk', 'ovl', 'scope', 'sigs', 'objm', 'trk', 'cli', 'qev', 'cyc', 'ldsh', 'pann']          # extended as units are built (see units/*.py)
+UNITS = ['sim', 'lex', 'upd', 'ptab', 'qbk', 'arith', 'semk', 'ovl', 'scope', 'sigs', 'objm', 'trk', 'cli', 'qev', 'cyc', 'ldsh', 'pann', 'tfa']          # extended as units are built (see units/*.py)
 NCPU = os.cpu_count() or 8
 
 
@@ -130,6 +130,11 @@ def main():
 
         def go(h):
             try:
+                if h.get('bounded_only'):
+                    # a function outside the verifier's unbounded reach (DESIGN.md §2.6): no proof is attempted or claimed;
+                    # the bounded run below stands in, is labelled bounded in the evidence and is never counted as discharged
+                    return dict(harness=h['name'], fn=h['fn'], status='bounded-only', results=[], failures=[], wall_s=0, solver_s=0, mode='proof',
+                                msg='bounded stand-in only: ' + h.get('bound', ''), guards=[], cmd='', replace=[], flags=h.get('flags', []))
                 mb = missing_bodies(h, 'proof')
                 if mb:
                     return dict(harness=h['name'], fn=h['fn'], status='extraction-break', results=[], failures=[], wall_s=0, solver_s=0, mode='proof',
@@ -159,7 +164,9 @@ def main():
                 if mb:
                     return dict(harness=h['name'] + '.bounded', fn=h['fn'], status='extraction-break', results=[], failures=[], wall_s=0, solver_s=0, mode='bounded',
                                 msg='; '.join(prof_.fn_unlowered[f] for f in mb), guards=[], cmd='', replace=[], flags=[])
-                return vrun.run_harness(unit, h, pu['src_b'], pu['wd'], pu['label_by_line_b'], 'bounded')
+                rb = vrun.run_harness(unit, h, pu['src_b'], pu['wd'], pu['label_by_line_b'], 'bounded')
+                rb['bound'] = h.get('bound')
+                return rb
             except Break as e:
                 return dict(harness=h['name'] + '.bounded', fn=h['fn'], status='break', results=[], failures=[], wall_s=0,
                             solver_s=0, mode='bounded', msg=str(e), guards=[], cmd='', replace=[], flags=[])
@@ -179,7 +186,7 @@ def main():
             if dep and r['status'] == 'ok':
                 r['status'] = 'callee-contract-unproved'
                 r['msg'] = 'uses the contract of %s, which was not established' % ', '.join(dep)
-            if r['status'] in ('binding-break', 'timeout', 'toolerror', 'callee-contract-unproved', 'extraction-break') or r['status'] == 'failed':
+            if r['status'] in ('binding-break', 'timeout', 'toolerror', 'callee-contract-unproved', 'extraction-break', 'bounded-only') or r['status'] == 'failed':
                 need_bounded.append(h)
         brs = dict((h['name'], r) for h, r in zip(need_bounded, ex.map(go_bounded, need_bounded)))
         for h, r in zip(hs, rs):
@@ -231,6 +238,8 @@ def main():
                         r['_inv'] = r['_inv'] + [f]      # treated like a proof-internal failure below
                     else:
                         labelled.append((f, r))
+            if not labelled and r['status'] == 'bounded-only' and bounded_ok:
+                continue            # held up to the stated bound; reported under bounded_standins only
             if not labelled:
                 why = r.get('msg') or ('%d proof-internal obligation(s) failed: %s' % (len(r['_inv']), ', '.join(sorted(set(f['label'] or f['id'] for f in r['_inv']))[:6])) if r['status'] == 'failed' else r['status'])
                 bs = 'bounded stand-in %s (%s)' % (b['status'], b.get('msg', '%d obligations' % len(b['results']))) if b is not None else 'no bounded run'
@@ -350,7 +359,7 @@ def main():
                             callees_replaced_by_contract=r.get('replace', []), arithmetic=('uninterpreted FP (UF)' if 'UF' in r.get('flags', []) else 'bit-precise'),
                             second_back_end=r.get('second_backend'), note=r.get('msg'))
                        for r in results],
-            bounded_standins=[dict(harness=r['harness'], bound=r.get('bound', 'NMAX=2 qubits / --unwind 6 with unwinding assertions'), obligations=len(r['results']), status=r['status'])
+            bounded_standins=[dict(harness=r['harness'], bound=r.get('bound') or 'small object bounds (-DBL_BOUNDED) / --unwind with unwinding assertions', obligations=len(r['results']), status=r['status'])
                               for r in results if r['mode'] == 'bounded'],
             obligations_bounded_not_counted=n_obl_b,
             vacuity_canaries_reached=n_canary,
